@@ -70,7 +70,7 @@ func jwtAttributes(m map[string]any) []Attribute {
 			continue
 		}
 		param := jwtParams[k]
-		if value := param.convert(v); value != "" {
+		if value, ok := param.convert(v); ok {
 			attrs = append(attrs, Attribute{Name: param.description, Value: value})
 		}
 	}
@@ -79,7 +79,8 @@ func jwtAttributes(m map[string]any) []Attribute {
 
 type jwtParam struct {
 	description string
-	convert     func(any) string
+	// convert returns the text to display and whether the value can be displayed at all
+	convert func(any) (string, bool)
 }
 
 var jwtParams = map[string]jwtParam{
@@ -110,61 +111,56 @@ var jwtParamOrder = []string{
 	"aud", "exp", "iat", "iss", "jti", "nbf", "sub",
 }
 
-func sigAlg(o any) string {
+func sigAlg(o any) (string, bool) {
 	if s, ok := o.(string); ok {
 		switch s {
 		case "HS256":
-			return names.HMAC + " using " + names.SHA256 + " (HS256)"
+			return names.HMAC + " using " + names.SHA256 + " (HS256)", true
 		case "HS384":
-			return names.HMAC + " using " + names.SHA384 + " (HS384)"
+			return names.HMAC + " using " + names.SHA384 + " (HS384)", true
 		case "HS512":
-			return names.HMAC + " using " + names.SHA512 + " (HS512)"
+			return names.HMAC + " using " + names.SHA512 + " (HS512)", true
 		case "RS256":
-			return names.RSA_PKCS15 + " with " + names.SHA256 + " (RS256)"
+			return names.RSA_PKCS15 + " with " + names.SHA256 + " (RS256)", true
 		case "RS384":
-			return names.RSA_PKCS15 + " with " + names.SHA384 + " (RS384)"
+			return names.RSA_PKCS15 + " with " + names.SHA384 + " (RS384)", true
 		case "RS512":
-			return names.RSA_PKCS15 + " with " + names.SHA512 + " (RS512)"
+			return names.RSA_PKCS15 + " with " + names.SHA512 + " (RS512)", true
 		case "ES256":
-			return names.ECDSA + " using " + names.Secp256r1 + " and " + names.SHA256 + " (ES256)"
+			return names.ECDSA + " using " + names.Secp256r1 + " and " + names.SHA256 + " (ES256)", true
 		case "ES384":
-			return names.ECDSA + " using " + names.Secp384r1 + " and " + names.SHA384 + " (ES384)"
+			return names.ECDSA + " using " + names.Secp384r1 + " and " + names.SHA384 + " (ES384)", true
 		case "ES512":
-			return names.ECDSA + " using " + names.Secp521r1 + " and " + names.SHA512 + " (ES512)"
+			return names.ECDSA + " using " + names.Secp521r1 + " and " + names.SHA512 + " (ES512)", true
 		case "PS256":
-			return names.RSA_PSS + " using " + names.SHA256 + " and " + names.MGF1 + " with " + names.SHA256 + " (PS256)"
+			return names.RSA_PSS + " using " + names.SHA256 + " and " + names.MGF1 + " with " + names.SHA256 + " (PS256)", true
 		case "PS384":
-			return names.RSA_PSS + " using " + names.SHA384 + " and " + names.MGF1 + " with " + names.SHA384 + " (PS384)"
+			return names.RSA_PSS + " using " + names.SHA384 + " and " + names.MGF1 + " with " + names.SHA384 + " (PS384)", true
 		case "PS512":
-			return names.RSA_PSS + " using " + names.SHA512 + " and " + names.MGF1 + " with " + names.SHA512 + " (PS512)"
+			return names.RSA_PSS + " using " + names.SHA512 + " and " + names.MGF1 + " with " + names.SHA512 + " (PS512)", true
 		default:
-			return s
+			return s, true
 		}
 	}
-	return ""
+	return "", false
 }
 
-func str(o any) string {
-	if o == nil {
-		return ""
-	}
-	if s, ok := o.(string); ok {
-		return s
-	}
-	return ""
+func str(o any) (string, bool) {
+	s, ok := o.(string)
+	return s, ok
 }
 
-func unixTime(o any) string {
+func unixTime(o any) (string, bool) {
 	switch v := o.(type) {
 	case string:
 		if i, err := strconv.Atoi(v); err == nil {
-			return time.Unix(int64(i), 0).UTC().Format("2006-01-02 15:04:05")
+			return time.Unix(int64(i), 0).UTC().Format("2006-01-02 15:04:05"), true
 		}
 	case float64:
 		// RFC 7519 NumericDate: a JSON number of seconds since the epoch, possibly with a fraction
 		if sec := math.Floor(v); math.Abs(sec) < 1<<53 {
-			return time.Unix(int64(sec), 0).UTC().Format("2006-01-02 15:04:05")
+			return time.Unix(int64(sec), 0).UTC().Format("2006-01-02 15:04:05"), true
 		}
 	}
-	return ""
+	return "", false
 }
